@@ -140,7 +140,7 @@ func init() {
 			{Name: "small", Count: func(string) int { return len(small) }, Run: func(ctx *core.Ctx, idx int) core.Result {
 				return c07Check(core.CaseRng(ctx.Seed, "C07/small", idx), small[idx], "small")
 			}},
-			{Name: "random", Count: countFn(60000, 2500000), Run: func(ctx *core.Ctx, idx int) core.Result {
+			{Name: "random", Count: countFn(60000, 1500000), Run: func(ctx *core.Ctx, idx int) core.Result {
 				r := core.CaseRng(ctx.Seed, "C07/random", idx)
 				return c07Check(r, gen.SynBody(r, r.Range(1, 8)), "random")
 			}},
